@@ -643,8 +643,16 @@ def replay(verdict, items, builds, sigfn=None, w2c2_flags=("-O1",), workdir=None
         w2c2 = build_w2c2(os.path.join(wd, "w2c2bin"), flags=w2c2_flags)
         compared = 0
         nontrivial = set()
+        # a build configuration may name its own translator: other compiler / optimisation level (what `make BUILD=debug`, MinSizeRel, a clang
+        # toolchain produce) or one instrumented with UBSan, whose report on any input is a defect of the translator
+        w2c2_of = {}
+        for b in builds:
+            if b.get("w2c2_build"):
+                wb = b["w2c2_build"]
+                w2c2_of[b["name"]] = build_w2c2(os.path.join(wd, "w2c2bin-" + b["name"]), flags=wb.get("flags", ("-O1",)), cc=wb.get("cc", "gcc"), name="w2c2-" + b["name"])
+
         def build_one(b):
-            return actual([dict(i) for i in usable], w2c2, os.path.join(wd, "run-" + b["name"]),
+            return actual([dict(i) for i in usable], w2c2_of.get(b["name"], w2c2), os.path.join(wd, "run-" + b["name"]),
                           cc=b.get("cc", "gcc"), cflags=b.get("cflags", ("-O1",)),
                           extra_defs=b.get("defs", ()), w2c2_opts=b.get("w2c2_opts", ()),
                           extra_srcs=b.get("extra_srcs", ()), batch=b.get("batch", 24), localize=b.get("localize", True), w2c2_env=b.get("w2c2_env"),
